@@ -25,7 +25,7 @@ def ensure():
 
 
 class Result:
-    __slots__ = ('t4', 'stdout', 'exc', 'exc_type', 'exc_msg', 'argv')
+    __slots__ = ('t4', 'stdout', 'exc', 'exc_type', 'exc_msg', 'argv', 'deck')
 
     def __init__(self):
         self.t4 = None
@@ -34,6 +34,7 @@ class Result:
         self.exc_type = None
         self.exc_msg = None
         self.argv = None
+        self.deck = None
 
     @property
     def ok(self):
@@ -76,6 +77,7 @@ def convert(deck_text, args=(), encoding=None, name='deck'):
         argv += ['-e', encoding]
     res = Result()
     res.argv = list(args)
+    res.deck = deck_text
     buf = io.StringIO()
     try:
         with contextlib.redirect_stdout(buf), warnings.catch_warnings():
